@@ -40,7 +40,7 @@ func TestVF_ReplayPlan(t *testing.T) {
 		res.CheckStreams()
 		res.Cluster.Close()
 		if os.Getenv("VF_PLAN_DEBUG") != "" {
-			t.Logf("run %d: flags %v\ncreated %v\nimages %v\ncalls %v", i, res.Flags, res.Rec.Created, res.Rec.ImagesBy, res.Rec.CallCount)
+			t.Logf("run %d: flags %v\ncreated %v\nimages %v\ninstalled %v\nrecovered %v\ncalls %v", i, res.Flags, res.Rec.Created, res.Rec.ImagesBy, res.Rec.Installed, res.Rec.RecoveredBy, res.Rec.CallCount)
 		}
 		for _, v := range res.AllViolations() {
 			t.Errorf("run %d: VFSIG[%s] %s", i, v.Sig, v.Msg)
